@@ -231,11 +231,66 @@ func init() {
 				if p.guard != nil {
 					panic(mergeAbort{"lock event in merge region"})
 				}
+				acquire := name == "lock" || name == "rlock"
+				var mu *Object
+				if pv, ok := args[0].(*PtrV); ok {
+					mu = pv.Obj
+				}
+				// vf.Interleave: just before this thread acquires a lock, the registered
+				// operation of ANOTHER thread may run to completion (one preemption)
+				if acquire && p.interleave != nil && !p.inInterleave {
+					k := p.choose(2)
+					p.inputs = append(p.inputs, &InputRec{Kind: "choose", Val: uint64(k), Env: p.inModel()})
+					if k == 1 {
+						fv := p.interleave
+						p.interleave = nil
+						p.inInterleave = true
+						p.events = append(p.events, Event{Name: "interleave.begin"})
+						p.invoke(fv, nil, nil)
+						p.events = append(p.events, Event{Name: "interleave.end"})
+						p.inInterleave = false
+					}
+				}
+				if mu != nil {
+					if p.heldLocks == nil {
+						p.heldLocks = map[*Object][2]int{}
+					}
+					h := p.heldLocks[mu]
+					who := 0
+					if p.inInterleave {
+						who = 1
+					}
+					if acquire {
+						if h[1-who] > 0 {
+							// the other thread holds it: this one would block here, the schedule is infeasible
+							p.end("infeasible", "interleaved operation blocks on a lock the preempted thread holds")
+						}
+						h[who]++
+					} else if h[who] > 0 {
+						h[who]--
+					}
+					p.heldLocks[mu] = h
+				}
 				p.events = append(p.events, Event{Name: name, Args: args[:1]})
 			}
 			return nil
 		}
 	}
+	// vf.Interleave(f): f is an operation of another goroutine; it runs, at most once and to
+	// completion, just before one of the following lock acquisitions of the calling code
+	// (every choice of the acquisition, or never, is explored). Needs lock_events.
+	reg(vfPkg+".Interleave", func(p *Path, fn *ssa.Function, args []Value) Value {
+		if !p.lockEvents {
+			p.unsupported("vf.Interleave needs lock_events in the harness configuration")
+		}
+		fv, ok := args[0].(*FuncV)
+		if !ok || (fv.Fn == nil && fv.Builtin == "") {
+			p.interleave = nil
+			return nil
+		}
+		p.interleave = fv
+		return nil
+	})
 	for _, t := range []string{"Mutex", "RWMutex"} {
 		reg("(*sync."+t+").Lock", lockEv("lock"))
 		reg("(*sync."+t+").Unlock", lockEv("unlock"))
